@@ -726,6 +726,10 @@ func genPoint(r rng, p *sdl.Program, holder *sdl.Type, k Knobs, field string) *s
 			if r.p(0.15) {
 				pt.Returns = []string{"*"}
 			}
+			if r.p(0.15) {
+				// alternatives that overlap: a component that fits several of them is still one candidate
+				pt.Returns = pick(r, [][]string{{"ka", "*"}, {"kb", "kb"}, {"*", "ka", "kb"}})
+			}
 		} else {
 			pt.Name = pick(r, funcVals)
 		}
